@@ -68,7 +68,22 @@ func OracleC10(tr *Trace) Verdict {
 			}
 		}
 	}
-	if !(p.FaultFree() && timely && p.MaxRTT() <= p.H/10) {
+	// "fault-free conditions" are the conditions of the moment: an instance whose health checks failed for a
+	// while (it stepped down, or not) and have been answering healthy again for long enough - every record
+	// written under the old conditions has expired, every follower has seen the current one - is running in
+	// fault-free conditions again. lastBad: the last unhealthy answer of the run (-1: none).
+	var lastBad time.Duration = -1
+	for _, hr := range tr.Healths {
+		if !hr.Result && hr.T > lastBad {
+			lastBad = hr.T
+		}
+	}
+	recoveredAt := time.Duration(0)
+	if lastBad >= 0 {
+		recoveredAt = lastBad + p.TTL + 3*p.H
+		v.Classes = append(v.Classes, "health-checks-failed-earlier-in-the-run")
+	}
+	if !(p.FaultFreeExceptHealth() && timely && p.MaxRTT() <= p.H/10) {
 		v.Classes = append(v.Classes, "promptness-premise-false")
 		sortViols(v.Viols)
 		return v
@@ -114,7 +129,7 @@ func OracleC10(tr *Trace) Verdict {
 			if !started || !in.Takeover || in.Group != p.Instances[c.Inst].Group || in.Priority <= storedPrio(c) || x == c.Inst {
 				continue
 			}
-			t := max(c.FromT, sx)
+			t := max(c.FromT, sx, recoveredAt)
 			if !onlyStarts {
 				// with stops and restarts in the plan: x counts from its latest Start before the window, and
 				// must be running (no stop call) throughout it
@@ -127,7 +142,7 @@ func OracleC10(tr *Trace) Verdict {
 				if latest < 0 {
 					continue
 				}
-				t = max(c.FromT, latest)
+				t = max(c.FromT, latest, recoveredAt)
 				if !running(x, t, t+3*p.H) {
 					continue
 				}
@@ -204,7 +219,7 @@ func OracleC10(tr *Trace) Verdict {
 	for _, s := range startOf {
 		lastStart = max(lastStart, s)
 	}
-	settle := lastStart + 3*p.H + p.H + 2*T + time.Second
+	settle := max(lastStart, recoveredAt) + 3*p.H + p.H + 2*T + time.Second
 	if settle < tr.End && onlyStarts {
 		for _, g := range p.Groups() {
 			top := 0
